@@ -177,7 +177,7 @@ func c37Oracle(cs c37Case, obs c37Obs) (key, what string) {
 		if err != nil {
 			continue // the server answers with the parse error and reads nothing
 		}
-		topics, show := queryTopics(parsed)
+		topics, show := c37UpstreamTopics(parsed)
 		var bad []string
 		for _, t := range topics {
 			if !acl.Allows(t) {
@@ -192,7 +192,10 @@ func c37Oracle(cs c37Case, obs c37Obs) (key, what string) {
 		k := "forwarded-unauthorized"
 		switch {
 		case len(trimmed) > 512:
-			if a, _, _, _ := c37AuthorizeOn(acl, trimmed[:512]+"..."); a {
+			// the truncation is to blame when the code's own authorization refuses the full text
+			aTrunc, _, _, _ := c37AuthorizeOn(acl, trimmed[:512]+"...")
+			aFull, _, _, _ := c37AuthorizeOn(acl, trimmed)
+			if aTrunc && !aFull {
 				k = "authorized-on-truncated-text"
 			}
 		case strings.HasSuffix(strings.TrimSpace(strings.TrimSuffix(trimmed, ";")), ";"):
@@ -201,6 +204,31 @@ func c37Oracle(cs c37Case, obs c37Obs) (key, what string) {
 		return k, fmt.Sprintf("acl allow=%q deny=%q: upstream received %q (%d bytes) which reads topics %q (show topics=%v); not allowed: %q", cs.Allow, cs.Deny, text, len(text), topics, show, bad)
 	}
 	return "", ""
+}
+
+// c37UpstreamTopics: the topics the KafSQL server touches when it executes a parsed
+// query (server.go executeQuery / handleSelect / handleExplain: the topic and, for any
+// kind of join, the join topic; SHOW TOPICS lists all topics). Stated independently of
+// the proxy's queryTopics, which is code under test.
+func c37UpstreamTopics(q kafsql.Query) ([]string, bool) {
+	switch q.Type {
+	case kafsql.QueryShowTopics:
+		return nil, true
+	case kafsql.QueryShowPartitions, kafsql.QueryDescribe:
+		return []string{q.Topic}, false
+	case kafsql.QueryExplain:
+		if q.Explain == nil {
+			return nil, false
+		}
+		return c37UpstreamTopics(*q.Explain)
+	case kafsql.QuerySelect:
+		t := []string{q.Topic}
+		if q.JoinTopic != "" {
+			t = append(t, q.JoinTopic)
+		}
+		return t, false
+	}
+	return nil, false
 }
 
 // what authorization says about another text (for classification only)
@@ -461,6 +489,14 @@ func c37GenCase(r *vRand) c37Case {
 			q = string(cs.Msgs[r.Intn(len(cs.Msgs))]) // exact repeat: cache hit
 		case i > 0 && r.Chance(20):
 			q = g.sameKey(string(cs.Msgs[r.Intn(len(cs.Msgs))]))
+		case i > 0 && r.Chance(25):
+			// same first 512 bytes as an earlier long text, another tail
+			prev := strings.TrimSpace(string(cs.Msgs[r.Intn(len(cs.Msgs))]))
+			if len(prev) > 512 {
+				q = prev[:512] + " " + []string{g.kw("join") + " " + g.topic() + " s " + g.kw("on") + " o._key = s._key", g.kw("last") + " 1h", g.kw("limit") + " 5", ""}[r.Intn(4)]
+			} else {
+				q = g.selectQ(true)
+			}
 		default:
 			q = g.query()
 		}
@@ -481,7 +517,7 @@ func c37Coq(cs c37Case, obs c37Obs) string {
 		show := false
 		if p, err := kafsql.Parse(text); err == nil {
 			ok = true
-			topics, show = queryTopics(p)
+			topics, show = c37UpstreamTopics(p)
 			for _, t := range topics {
 				topicSet[t] = true
 			}
@@ -590,6 +626,8 @@ func TestVerifC37(t *testing.T) {
 			{Allow: []string{"orders", "sec..."}, Msgs: [][]byte{[]byte("select * from orders" + strings.Repeat(" ", 485) + "join secret s")}},
 			// cached decision for the short text must not serve a long text with the same 512-byte prefix
 			{Allow: []string{"orders"}, TTL: 60, Max: 8, Msgs: [][]byte{[]byte("select * from orders" + strings.Repeat(" ", 492)), []byte("select * from orders" + strings.Repeat(" ", 492) + " join secret s on orders._key = s._key")}},
+			// two long texts with the same first 512 bytes must not share a cached decision
+			{Allow: []string{"orders"}, TTL: 60, Max: 8, Msgs: [][]byte{[]byte("select * from orders" + strings.Repeat(" ", 492) + " last 1h"), []byte("select * from orders" + strings.Repeat(" ", 492) + " join secret s on orders._key = s._key")}},
 			// two trailing semicolons: one stripped by the proxy, one by Parse, the upstream strips only one
 			{Allow: []string{"orders"}, Msgs: [][]byte{[]byte("describe orders;;"), []byte("select * from orders;;"), []byte("show partitions from orders;;")}},
 			{Allow: []string{"orders"}, TTL: 60, Max: 2, Msgs: [][]byte{[]byte("SELECT * FROM orders"), []byte("select  *  from  ORDERS"), []byte("select * from secret"), []byte("SELECT * FROM secret"), []byte("show topics"), []byte("SET x = 1;"), []byte("set\tx = 1")}},
